@@ -485,3 +485,7 @@ def run(ctx):
         "Write, the reader blocked until the harness ends it)",
         "one emitter: emissions on different objects do not overlap",
     ]
+
+    # the life of client-side subscriptions sharing a connection: who owns a handler slot (SubLife.tla)
+    import ext_sublife
+    ext_sublife.run(ctx)
